@@ -288,6 +288,8 @@ class NcpEzsp:
         return [self._ok()]
 
     def cmd_readCounters(self, a):
+        if getattr(self, "n_counters", None):
+            return [[(i * 3) % 100 for i in range(self.n_counters)]]        # firmware reporting fewer / more counters than the host knows
         n = len(self.t.EmberCounterType) if self.version > 4 else 40
         rx = list(self.cmds["readCounters"][2].values())[0]
         try:
